@@ -580,6 +580,12 @@ func evalWildcard(node *jparse.WildcardNode, data reflect.Value, env *environmen
 }
 
 func appendWildcard(seq *sequence, v reflect.Value) {
+	if v.IsValid() && !v.CanInterface() {
+		// Unexported fields of Go values (e.g. of a function
+		// value) are not JSON data. Skip them, arrays included.
+		return
+	}
+
 	switch {
 	case jtypes.IsArray(v):
 		v = flattenArray(v)
